@@ -28,16 +28,58 @@ func init() {
 }
 
 type c14Target struct {
-	name string
-	t    reflect.Type
+	name  string
+	t     reflect.Type
+	uopts []gotype.UnfoldOption // registered custom unfolders (the model's verdict on the type does not apply then)
+}
+
+// targets with custom unfolders: a recursive type filled by a processing unfolder (its temporary cell holds further values
+// of the type itself), an Expander, a registered primitive unfolder, and containers of them
+type c14Tree struct {
+	Name string
+	Kids []c14Tree
+}
+type c14TreeCell struct {
+	Name string    `struct:"name"`
+	Kids []c14Tree `struct:"kids"`
+	A    []c14Tree `struct:"a"`
+	B    *c14Tree  `struct:"b"`
+}
+
+func c14CustomTargets() []c14Target {
+	opts := []gotype.UnfoldOption{gotype.Unfolders(
+		func(to *c14Tree) (interface{}, func(*c14Tree, interface{}) error) {
+			return &c14TreeCell{}, func(to *c14Tree, c interface{}) error {
+				cell := c.(*c14TreeCell)
+				to.Name = cell.Name
+				to.Kids = append(append(cell.Kids, cell.A...))
+				if cell.B != nil {
+					to.Kids = append(to.Kids, *cell.B)
+				}
+				return nil
+			}
+		},
+		func(to *C13Plain) gotype.UnfoldState { return &c13State{log: &to.Log} },
+		func(to *C13Prim, v int64) error { to.V, to.Set = v, true; return nil },
+	)}
+	mk := func(v interface{}) c14Target {
+		return c14Target{name: fmt.Sprintf("custom:%T", v), t: reflect.TypeOf(v), uopts: opts}
+	}
+	return []c14Target{mk(c14Tree{}), mk([]c14Tree{}), mk(map[string]c14Tree{}), mk(&c14Tree{}), mk(struct {
+		A c14Tree `struct:"a"`
+		B int     `struct:"b"`
+	}{}), mk(C13Rec{}), mk([]C13Rec{}), mk(C13Plain{}), mk(map[string]C13Plain{}), mk(C13Prim{}), mk([]C13Prim{}), mk(struct {
+		A C13Rec  `struct:"a"`
+		B C13Prim `struct:"b"`
+	}{})}
 }
 
 func c14Targets(tier string) []c14Target {
 	var out []c14Target
 	for _, ft := range gen.FieldTypes(1) {
-		out = append(out, c14Target{ft.Name, ft.T})
+		out = append(out, c14Target{name: ft.Name, t: ft.T})
 	}
-	add := func(spec gen.StructSpec) { out = append(out, c14Target{spec.String(), spec.Build()}) }
+	add := func(spec gen.StructSpec) { out = append(out, c14Target{name: spec.String(), t: spec.Build()}) }
 	ft := gen.FieldTypes(0)
 	pick := func(name string) gen.FieldType {
 		for _, f := range gen.FieldTypes(1) {
@@ -62,7 +104,7 @@ func c14Targets(tier string) []c14Target {
 	}
 	add(gen.StructSpec{Fields: []gen.FieldType{pick("string"), pick("Inner"), pick("string")}, Tags: []string{"zz", ",inline", "a"}})
 	for _, v := range []interface{}{SeedMyInt(0), SeedMyMap(nil), SeedMySlice(nil), SeedRec{}, SeedRecSlice{}, SeedWithUnexported{}, SeedNamedFields{}, SeedBad1{}, SeedBad3{}, SeedBad4{}, SeedArrField{}, SeedMyArr{}, map[int]string(nil), [2]int{}, SeedHolder{}} {
-		out = append(out, c14Target{fmt.Sprintf("%T", v), reflect.TypeOf(v)})
+		out = append(out, c14Target{name: fmt.Sprintf("%T", v), t: reflect.TypeOf(v)})
 	}
 	return out
 }
@@ -101,7 +143,7 @@ func c14Leaves(n int) []model.Event {
 }
 
 func c14Families(tier string) []engine.Family {
-	targets := c14Targets(tier)
+	targets := append(c14Targets(tier), c14CustomTargets()...)
 	leaves := c14Leaves(5)
 	maxNodes := tierPick(tier, 4, 5)
 	hostile := []int{1, 1 << 16, 1 << 24, 1 << 31, 1 << 62, 1<<63 - 1}
@@ -113,10 +155,10 @@ func c14Families(tier string) []engine.Family {
 		tStr := reflect.TypeOf("")
 		scalarish := append(append(append([]gen.FieldType{}, gen.ScalarTypes...), gen.FieldType{Name: "interface{}", T: reflect.TypeOf((*interface{})(nil)).Elem()}), gen.NamedScalarTypes()...)
 		for _, b := range scalarish {
-			kcTargets = append(kcTargets, c14Target{b.Name, b.T}, c14Target{"[]" + b.Name, reflect.SliceOf(b.T)}, c14Target{"map[string]" + b.Name, reflect.MapOf(tStr, b.T)},
-				c14Target{"*" + b.Name, reflect.PtrTo(b.T)}, c14Target{"[2]" + b.Name, reflect.ArrayOf(2, b.T)}, c14Target{"[][]" + b.Name, reflect.SliceOf(reflect.SliceOf(b.T))},
-				c14Target{"map[string][]" + b.Name, reflect.MapOf(tStr, reflect.SliceOf(b.T))}, c14Target{"map[string]map[string]" + b.Name, reflect.MapOf(tStr, reflect.MapOf(tStr, b.T))},
-				c14Target{"struct{A []" + b.Name + "; B map[string]" + b.Name + "}", reflect.StructOf([]reflect.StructField{{Name: "A", Type: reflect.SliceOf(b.T)}, {Name: "B", Type: reflect.MapOf(tStr, b.T)}})})
+			kcTargets = append(kcTargets, c14Target{name: b.Name, t: b.T}, c14Target{name: "[]" + b.Name, t: reflect.SliceOf(b.T)}, c14Target{name: "map[string]" + b.Name, t: reflect.MapOf(tStr, b.T)},
+				c14Target{name: "*" + b.Name, t: reflect.PtrTo(b.T)}, c14Target{name: "[2]" + b.Name, t: reflect.ArrayOf(2, b.T)}, c14Target{name: "[][]" + b.Name, t: reflect.SliceOf(reflect.SliceOf(b.T))},
+				c14Target{name: "map[string][]" + b.Name, t: reflect.MapOf(tStr, reflect.SliceOf(b.T))}, c14Target{name: "map[string]map[string]" + b.Name, t: reflect.MapOf(tStr, reflect.MapOf(tStr, b.T))},
+				c14Target{name: "struct{A []" + b.Name + "; B map[string]" + b.Name + "}", t: reflect.StructOf([]reflect.StructField{{Name: "A", Type: reflect.SliceOf(b.T)}, {Name: "B", Type: reflect.MapOf(tStr, b.T)}})})
 		}
 	}
 
@@ -139,12 +181,15 @@ func c14Families(tier string) []engine.Family {
 			}
 		}
 		usup, why := model.UnfoldSupported(tg.t)
+		if tg.uopts != nil {
+			usup, why = true, ""
+		}
 		stage := "SetTarget"
 		delivered := 0
 		x.Journal("gotype.Unfolder", class, desc)
 		a0 := allocBytes()
 		res := guard(int64(200000+600*streamSize(evs)), func() error {
-			u, err := gotype.NewUnfolder(ptr.Interface())
+			u, err := gotype.NewUnfolder(ptr.Interface(), tg.uopts...)
 			if err != nil {
 				return err
 			}
